@@ -235,30 +235,84 @@ def test_6_right_again():
     assert {"a": 1} == snapshot({"a": 1})
 """
 
+# comparisons that are evaluated OUTSIDE a test function (module level during collection, parametrize arguments, a session fixture) and legitimately give False,
+# membership in snapshots of str / bytes / dict / range / tuple values, tests that pass either way
+SESSION_SRC2 = """from inline_snapshot import snapshot
+import pytest
+
+WINDOWS = "linux" == snapshot("win32")
+SMALL = [v for v in (1, 9) if v <= snapshot(5)]
+
+
+@pytest.fixture(scope="session")
+def limit():
+    return 3 if 4 in snapshot([1, 2]) else 7
+
+
+def test_1_first():
+    assert not WINDOWS
+    assert SMALL == [1]
+
+
+def test_2_fixture(limit):
+    assert limit == 7
+
+
+@pytest.mark.parametrize("v", [x for x in (1, 2, 3) if x >= snapshot(2)])
+def test_3_param(v):
+    assert v >= 2
+
+
+def test_4_str_membership():
+    assert "snapshot" in snapshot("inline-snapshot")
+    assert "line-sn" in snapshot("inline-snapshot")
+    assert b"cd" in snapshot(b"abcde")
+    s = snapshot({"name": "inline-snapshot"})
+    assert "snap" in s["name"]
+    for needle in ("in", "line", "shot"):
+        assert needle in snapshot("inline-snapshot")
+
+
+def test_5_other_containers():
+    assert "k" in snapshot({"k": 1})
+    assert 3 in snapshot(range(5))
+    assert (1, 2) in snapshot(((1, 2), (3, 4)))
+    assert 2 in snapshot({1, 2})
+
+
+def test_6_last():
+    assert 5 == snapshot(5)
+"""
+
 
 def session_equivalence(ctx: Ctx):
     """a whole session: every test passes with inline-snapshot active and no approval iff it passes with --inline-snapshot=disable
     (tests after a failing one included)"""
     import shutil
 
-    def one(flags):
+    def one(item):
+        which, flags = item
         d = driver.scratch_dir()
         try:
-            driver.write_project(d, {"test_s.py": SESSION_SRC})
+            driver.write_project(d, {"test_s.py": (SESSION_SRC, SESSION_SRC2)[which]})
             r = driver.run_pytest(d, [f"--inline-snapshot={flags}"] if flags else [])
-            return flags, r["outcomes"], r["rc"]
+            return (which, flags), (r["outcomes"], r["rc"])
         finally:
             shutil.rmtree(d, ignore_errors=True)
-    res = dict((f, (o, rc)) for f, o, rc in tmap(one, ["disable", "", "report", "short-report"]))
-    base = {k: (v == "passed") for k, v in res["disable"][0].items()}
-    for f in ("", "report", "short-report"):
-        ctx.count(("session", f), True)
-        got = {k: (v == "passed") for k, v in res[f][0].items()}
-        # test_5_missing: an empty snapshot() cannot be evaluated when disabled (documented), it is compared separately
-        diff = {k: (base.get(k), got.get(k)) for k in set(base) | set(got) if base.get(k) != got.get(k) and "missing" not in k}
-        if diff:
-            ctx.report(f"a session without approval (flags {f!r}) and a session with --inline-snapshot=disable disagree on which tests pass: {diff}", {"kind": "session", "flags": f})
-    ctx.coverage["oracle"]["whole_session_equivalence"] = 3
+    res = dict(tmap(one, [(w, f) for w in (0, 1) for f in ("disable", "", "report", "short-report")]))
+    for w in (0, 1):
+        base = {k: (v == "passed") for k, v in res[(w, "disable")][0].items()}
+        if w == 1 and not (base and all(base.values())):
+            raise RuntimeError(f"the second session project does not pass with --inline-snapshot=disable: {res[(w, 'disable')]}")
+        for f in ("", "report", "short-report"):
+            ctx.count(("session", w, f), True)
+            got = {k: (v == "passed") for k, v in res[(w, f)][0].items()}
+            # test_5_missing: an empty snapshot() cannot be evaluated when disabled (documented), it is compared separately
+            diff = {k: (base.get(k), got.get(k)) for k in set(base) | set(got) if base.get(k) != got.get(k) and "missing" not in k}
+            if diff:
+                ctx.report(f"a session without approval (flags {f!r}) and a session with --inline-snapshot=disable disagree on which tests pass: {diff}",
+                           {"kind": "session", "flags": f, "project": w})
+    ctx.coverage["oracle"]["whole_session_equivalence"] = 6
 
 
 def run(ctx: Ctx):
